@@ -258,6 +258,67 @@ func c10Mutate(r *rand.Rand, b []byte) []byte {
 	return b
 }
 
+// c10M3U8Soup: a playlist assembled from the whole RFC 8216 tag vocabulary in any order and number
+// (tags that belong to the other playlist kind, tags before the first segment, attribute lists with
+// missing / repeated / malformed attributes): every line is something a server may send.
+func c10M3U8Soup(r *rand.Rand) []byte {
+	uri := func() string {
+		return pick(r, []string{"seg.ts", "k", "init.mp4", "https://v.example/a/b.m3u8", "/abs/key.bin", "../up.ts", "", "data:text/plain;base64,AAAA", "skd://key", c10HostileText(r)})
+	}
+	attr := func() string {
+		var as []string
+		for k := 0; k < r.Intn(5); k++ {
+			as = append(as, pick(r, []string{
+				"METHOD=" + pick(r, []string{"AES-128", "NONE", "SAMPLE-AES", "", "x"}), "URI=\"" + uri() + "\"", "URI=" + uri(), "IV=0x" + strings.Repeat("9", r.Intn(40)), "KEYFORMAT=\"identity\"",
+				"BANDWIDTH=" + pick(r, []string{"1", "-1", "99999999999999999999", "x", ""}), "RESOLUTION=" + pick(r, []string{"1x1", "x", "1920x", ""}), "CODECS=\"avc1,mp4a\"", "TYPE=" + pick(r, []string{"AUDIO", "VIDEO", "SUBTITLES", "CLOSED-CAPTIONS", "x"}),
+				"GROUP-ID=\"g\"", "NAME=\"n\"", "DEFAULT=YES", "AUDIO=\"g\"", "SUBTITLES=\"g\"", "BYTERANGE=\"" + pick(r, []string{"10@0", "@", "x", "-1@-1"}) + "\"", "TIME-OFFSET=" + pick(r, []string{"0", "-1.5", "x"}),
+				"ID=\"d\"", "START-DATE=\"" + pick(r, []string{"2020-01-01T00:00:00Z", "x", ""}) + "\"", "DURATION=" + pick(r, []string{"1", "-1", "x"}), "PROGRAM-ID=1", "\"", "=", ",", "A=\"unterminated"}))
+		}
+		return strings.Join(as, ",")
+	}
+	tags := []func() string{
+		func() string { return "#EXTM3U" },
+		func() string { return "#EXT-X-VERSION:" + pick(r, []string{"3", "7", "x", "", "-1"}) },
+		func() string { return "#EXT-X-TARGETDURATION:" + pick(r, []string{"10", "x", "", "-1", "1e99"}) },
+		func() string { return "#EXT-X-MEDIA-SEQUENCE:" + pick(r, []string{"0", "x", "99999999999999999999"}) },
+		func() string { return "#EXT-X-DISCONTINUITY-SEQUENCE:" + pick(r, []string{"0", "x"}) },
+		func() string { return "#EXT-X-PLAYLIST-TYPE:" + pick(r, []string{"VOD", "EVENT", "x"}) },
+		func() string { return "#EXT-X-KEY:" + attr() },
+		func() string { return "#EXT-X-SESSION-KEY:" + attr() },
+		func() string { return "#EXT-X-MAP:" + attr() },
+		func() string { return "#EXT-X-BYTERANGE:" + pick(r, []string{"10@0", "10", "x", "@"}) },
+		func() string { return "#EXT-X-DISCONTINUITY" },
+		func() string { return "#EXT-X-PROGRAM-DATE-TIME:" + pick(r, []string{"2020-01-01T00:00:00Z", "x", ""}) },
+		func() string { return "#EXT-X-DATERANGE:" + attr() },
+		func() string { return "#EXT-X-GAP" },
+		func() string { return "#EXT-X-I-FRAMES-ONLY" },
+		func() string { return "#EXT-X-INDEPENDENT-SEGMENTS" },
+		func() string { return "#EXT-X-START:" + attr() },
+		func() string { return "#EXT-X-ENDLIST" },
+		func() string { return "#EXT-X-MEDIA:" + attr() },
+		func() string { return "#EXT-X-STREAM-INF:" + attr() },
+		func() string { return "#EXT-X-I-FRAME-STREAM-INF:" + attr() },
+		func() string { return "#EXT-X-SESSION-DATA:" + attr() },
+		func() string { return "#EXT-X-ALLOW-CACHE:" + pick(r, []string{"YES", "NO", "x"}) },
+		func() string { return "#EXTINF:" + pick(r, []string{"9.009,", "9,title", "x,", ",", "", "-1,"}) },
+		func() string { return "#EXT-X-CUE-OUT:" + pick(r, []string{"30", "x", ""}) },
+		func() string { return "#EXT-X-CUE-IN" },
+		func() string { return "#EXT-OATCLS-SCTE35:" + pick(r, []string{"/DA0AAAA", "x"}) },
+		func() string { return "# comment" },
+		func() string { return "" },
+		uri, uri, uri,
+	}
+	var b strings.Builder
+	if r.Intn(8) != 0 {
+		b.WriteString("#EXTM3U\n")
+	}
+	for i := 0; i < 1+r.Intn(14); i++ {
+		b.WriteString(tags[r.Intn(len(tags))]())
+		b.WriteString(pick(r, []string{"\n", "\n", "\n", "\r\n"}))
+	}
+	return []byte(b.String())
+}
+
 func c10Bomb(r *rand.Rand) []byte {
 	n := 2000 + r.Intn(20000)
 	switch r.Intn(8) {
@@ -324,7 +385,10 @@ func c10GenCase(seed int64, idx int) c10Case {
 	case 3:
 		base, _, _ = genM3U8(r, tg)
 		c.Kind = "m3u8"
-		c.Header.Set("Content-Type", "application/vnd.apple.mpegurl")
+		if r.Intn(2) == 0 {
+			base, c.Kind = c10M3U8Soup(r), "m3u8-tag-soup"
+		}
+		c.Header.Set("Content-Type", pick(r, []string{"application/vnd.apple.mpegurl", "application/x-mpegURL", "audio/mpegurl"}))
 	case 4:
 		base, c.Kind = c10Samples.pdf, "pdf"
 		c.Header.Set("Content-Type", "application/pdf")
